@@ -1,0 +1,47 @@
+// Copyright (C) 2015-2025 Jonathan Müller and foonathan/memory contributors
+// SPDX-License-Identifier: Zlib
+
+#ifndef FOONATHAN_MEMORY_DETAIL_VERIF_HOOKS_HPP_INCLUDED
+#define FOONATHAN_MEMORY_DETAIL_VERIF_HOOKS_HPP_INCLUDED
+
+// Scheduling points for runtime verification.
+// Only active if FOONATHAN_MEMORY_VERIF is defined; otherwise the macro expands to nothing
+// and nothing is declared.
+// A point is placed directly before a step on memory shared between threads,
+// so that a controlled scheduler installed by a test harness can decide which thread performs its next step.
+
+#ifdef FOONATHAN_MEMORY_VERIF
+
+#include <atomic>
+
+namespace foonathan
+{
+    namespace memory
+    {
+        namespace detail
+        {
+            using verif_hook_function = void (*)(int point, const void* object);
+
+            inline std::atomic<verif_hook_function>& verif_hook() noexcept
+            {
+                static std::atomic<verif_hook_function> hook(nullptr);
+                return hook;
+            }
+        } // namespace detail
+    }     // namespace memory
+} // namespace foonathan
+
+#define FOONATHAN_MEMORY_VERIF_POINT(Id, Object)                                                   \
+    do                                                                                             \
+    {                                                                                              \
+        if (auto foonathan_memory_verif_hook = ::foonathan::memory::detail::verif_hook().load())   \
+            foonathan_memory_verif_hook(Id, Object);                                               \
+    } while (false)
+
+#else
+
+#define FOONATHAN_MEMORY_VERIF_POINT(Id, Object) static_cast<void>(0)
+
+#endif
+
+#endif // FOONATHAN_MEMORY_DETAIL_VERIF_HOOKS_HPP_INCLUDED
